@@ -37,7 +37,7 @@ type Ctx struct {
 	Signers string `json:"signers"` // "ab", "ac", "abc"
 	Session string `json:"session"` // "nil", "1", "2"
 	Variant string `json:"variant"` // "frost", "taproot"
-	Share   int    `json:"share"`   // 0/1: which of the two independent key generations
+	Share   int    `json:"share"`   // 0/1: which of the two independent key generations; 2: key 0 after a refresh (same public key and ids, new share)
 }
 
 func (c Ctx) String() string {
@@ -87,14 +87,24 @@ func messages(seed int64) [][]byte {
 		append(append([]byte{}, m0...), 0x00),
 		append(append([]byte{}, m0...), 0xAA),
 		append([]byte{}, m0[:16]...),
+		// boundary-shift partners of m0: with session ids "1" / "1"+m0[0] / none, the concatenations
+		// session||message of (nil, '1'||m0), ("1", m0) and ("1"+m0[0], m0[1:]) are the same bytes
+		append([]byte{}, m0[1:]...),
+		append([]byte{'1'}, m0...),
 	}
 }
+
+// shiftByte is the first byte of message 0 (session id "1+" = "1" followed by it).
+var shiftByte byte
 
 var signerSets = map[string][]party.ID{"ab": {"a", "b"}, "ac": {"a", "c"}, "abc": {"a", "b", "c"}}
 
 func sessionBytes(s string) []byte {
 	if s == "nil" {
 		return nil
+	}
+	if s == "1+" {
+		return []byte{'1', shiftByte}
 	}
 	return []byte(s)
 }
@@ -105,7 +115,7 @@ func grid(msgs []int) []Ctx {
 		for _, s := range []string{"ab", "ac", "abc"} {
 			for _, sid := range []string{"nil", "1", "2"} {
 				for _, v := range []string{"frost", "taproot"} {
-					for sh := 0; sh < 2; sh++ {
+					for sh := 0; sh < 3; sh++ {
 						out = append(out, Ctx{Msg: m, Signers: s, Session: sid, Variant: v, Share: sh})
 					}
 				}
@@ -157,16 +167,32 @@ func reader(mode string, seed int64, ctx string, attempt int) io.Reader {
 // ---- key material -------------------------------------------------------------------------------------
 
 type keys struct {
-	tap   [2]*frost.TaprootConfig // party a's material from two independent taproot key generations
-	plain [2]*frost.Config        // the same sharing as a plain FROST config (what SignTaproot builds internally)
+	tap   [3]*frost.TaprootConfig // party a's material: two independent taproot key generations, and [2] = key 0 after a refresh (same public key, new share)
+	plain [3]*frost.Config        // the same sharings as plain FROST configs (what SignTaproot builds internally)
 }
 
 var allIDs = []party.ID{"a", "b", "c"}
 
 func buildKeys(seed int64) (*keys, error) {
 	k := &keys{}
-	for i := 0; i < 2; i++ {
-		o := sess.Run(sess.FrostKeygen(allIDs, 1, true), seed, fmt.Sprintf("c11-keygen-%d", i))
+	for i := 0; i < 3; i++ {
+		var o *sess.Outcome
+		if i < 2 {
+			o = sess.Run(sess.FrostKeygen(allIDs, 1, true), seed, fmt.Sprintf("c11-keygen-%d", i))
+		} else {
+			// the refreshed epoch of key 0: a second key generation whose results are refreshed, so that the
+			// objects of k.tap[0] are not the ones handed to the refresh
+			o0 := sess.Run(sess.FrostKeygen(allIDs, 1, true), seed, "c11-keygen-0")
+			cfgs := map[party.ID]*frost.TaprootConfig{}
+			for _, id := range allIDs {
+				c, ok := o0.Results[id].(*frost.TaprootConfig)
+				if !ok {
+					return nil, fmt.Errorf("taproot keygen for the refresh failed: %v %s", o0.Errors, o0.Panic)
+				}
+				cfgs[id] = c
+			}
+			o = sess.Run(sess.FrostRefreshTaproot(cfgs, allIDs), seed, "c11-refresh-0")
+		}
 		c, ok := o.Results["a"].(*frost.TaprootConfig)
 		if !ok {
 			return nil, fmt.Errorf("taproot keygen %d failed: start=%v err=%v panic=%s stuck=%v", i, o.StartErr, o.Errors, o.Panic, o.Stuck)
@@ -187,6 +213,10 @@ func buildKeys(seed int64) (*keys, error) {
 	s1, _ := k.tap[1].PrivateShare.MarshalBinary()
 	if bytes.Equal(s0, s1) {
 		return nil, fmt.Errorf("the two key generations gave party a the same share")
+	}
+	s2, _ := k.tap[2].PrivateShare.MarshalBinary()
+	if bytes.Equal(s0, s2) || !bytes.Equal(k.tap[0].PublicKey, k.tap[2].PublicKey) {
+		return nil, fmt.Errorf("the refreshed epoch of key 0 is not (same public key, new share)")
 	}
 	return k, nil
 }
@@ -413,7 +443,15 @@ func main() {
 	}
 
 	// ---- FROST ------------------------------------------------------------------------------------------
+	shiftByte = msgs[0][0]
 	ctxs := append(grid([]int{0, 1}), grid([]int{2, 3, 4})...)
+	// session/message boundary shifts (an unframed concatenation of the two would make these collide)
+	for _, c := range []Ctx{{Msg: 6, Session: "nil"}, {Msg: 0, Session: "1+"}, {Msg: 5, Session: "1+"}, {Msg: 5, Session: "1"}, {Msg: 6, Session: "1"}} {
+		for _, v := range []string{"frost", "taproot"} {
+			c.Signers, c.Variant, c.Share = "ab", v, 0
+			ctxs = append(ctxs, c)
+		}
+	}
 	nMain := len(grid([]int{0, 1}))
 	starts, pairs := 0, 0
 	modes := append(append([]string{}, failingModes...), "honest")
